@@ -118,7 +118,7 @@ def Vec.emplaceBack (v : Vec) (e : Elem) : Vec :=
 /-- `locator_->resize(new_size, memory_begin())` -/
 def Loc.resize (l : Loc) (fixedLoc : Bool) (n : Nat) : Loc :=
   if fixedLoc then { l with count := n }
-  else { l with last := (if n = 0 then 0 else l.slots n), size := n }
+  else { l with last := (if n = 0 then 0 else if n < l.size then l.slots n else l.last), size := n }
 
 def Vec.popBack (v : Vec) : Vec :=
   let n := v.size - 1
